@@ -83,6 +83,15 @@ Theorem C03_ite_std_sound : forall order f g h a,
 Proof. exact s_ite_std_sound. Qed.
 Print Assumptions C03_ite_std_sound.
 
+(* VTreeManager::is_prime panics on constant pointers; Ite::new never consults the order closure on
+   one: two closures that agree on non-constant pointers give the same standard triple, so the
+   total closure of the model stands for the partial one of the code *)
+Theorem C03_ite_order_never_on_constants : forall (o1 o2 : sdd -> sdd -> bool) f g h,
+  (forall a b, s_is_const a = false -> s_is_const b = false -> o1 a b = o2 a b) ->
+  s_ite_new o1 f g h = s_ite_new o2 f g h.
+Proof. exact s_ite_new_order_irrelevant_on_consts. Qed.
+Print Assumptions C03_ite_order_never_on_constants.
+
 (* ite behind the standard-triple cache (and with it iff = ite f g !g, xor = ite f !g g) *)
 Theorem C03_sdd_ite_correct : forall t compress_on cache ic f g h,
   NoDup (vleaves t) -> cache_sound t cache -> ic_sound (under t 0) ic -> under t 0 f -> under t 0 g -> under t 0 h ->
